@@ -99,7 +99,36 @@ def V3.cross (a b : V3 α) : V3 α :=
 /-- determinant with rows `a b c` = `(a × b) · c` -/
 def det3 (a b c : V3 α) : α := (a.cross b).dot c
 def M3.det (M : M3 α) : α := det3 ⟨M.aa, M.ab, M.ac⟩ ⟨M.ba, M.bb, M.bc⟩ ⟨M.ca, M.cb, M.cc⟩
+/-- Plane equation of the plane through `p0 p1 p2` evaluated at `q`: zero iff `q` lies on it. -/
+def planeEq3 (p0 p1 p2 q : V3 α) : α := det3 (p1.sub p0) (p2.sub p0) (q.sub p0)
 end Sub
+
+/-! ## `Matrix.from_angle` over the cosines / sines of the three angles -/
+
+/-- The six numbers `Matrix.from_angle` computes first: cos/sin of pitch, yaw, roll. -/
+structure Trig (α : Type) where
+  cp : α
+  sp : α
+  cy : α
+  sy : α
+  cr : α
+  sr : α
+  deriving Repr, BEq, DecidableEq
+
+section FromAngle
+variable {α : Type} [Add α] [Mul α] [Sub α] [Neg α]
+
+/-- `Matrix.from_angle` as coded. -/
+def fromTrig (a : Trig α) : M3 α :=
+  ⟨a.cp * a.cy, a.cp * a.sy, -a.sp,
+   a.sp * (a.sr * a.cy) - (a.cr * a.sy), a.sp * (a.sr * a.sy) + (a.cr * a.cy), a.sr * a.cp,
+   a.sp * (a.cr * a.cy) + (a.sr * a.sy), a.sp * (a.cr * a.sy) - (a.sr * a.cy), a.cr * a.cp⟩
+
+variable [Zero α] [One α]
+def yawM (a : Trig α) : M3 α := ⟨a.cy, a.sy, 0, -a.sy, a.cy, 0, 0, 0, 1⟩
+def pitchM (a : Trig α) : M3 α := ⟨a.cp, 0, -a.sp, 0, 1, 0, a.sp, 0, a.cp⟩
+def rollM (a : Trig α) : M3 α := ⟨1, 0, 0, 0, a.cr, a.sr, 0, -a.sr, a.cr⟩
+end FromAngle
 
 /-! ## texture axes, faces, brushes -/
 
@@ -142,7 +171,7 @@ def Solid.localise (P : Placement α) (b : Solid α) : Solid α := b.map (Side.l
 
 /-- Plane equation of a face evaluated at `q`: zero iff `q` is on the plane through the three
 plane points. -/
-def Side.planeEq (s : Side α) (q : V3 α) : α := det3 (s.p1.sub s.p0) (s.p2.sub s.p0) (q.sub s.p0)
+def Side.planeEq (s : Side α) (q : V3 α) : α := planeEq3 s.p0 s.p1 s.p2 q
 
 end UV
 
@@ -187,9 +216,18 @@ def matchesCI : List Char → List Char → Bool
   | _ :: _, [] => false
   | a :: k, b :: rest => a == lowerAscii b && matchesCI k rest
 
-/-- `sorted(self._fixup.keys(), key=len, reverse=True)` — stable, longest first. -/
-def sortKeys (t : FixTable) : List (List Char) :=
-  (t.map (·.1)).mergeSort (fun a b => decide (b.length ≤ a.length))
+/-- Stable insertion, longest first: `k` goes in front of the first element that is not longer. -/
+def insKey (k : List Char) : List (List Char) → List (List Char)
+  | [] => [k]
+  | e :: l => if e.length ≤ k.length then k :: e :: l else e :: insKey k l
+
+def sortByLen : List (List Char) → List (List Char)
+  | [] => []
+  | k :: rest => insKey k (sortByLen rest)
+
+/-- `sorted(self._fixup.keys(), key=len, reverse=True)` — stable, longest first (a structural
+insertion sort, so that closed instances evaluate in the kernel). -/
+def sortKeys (t : FixTable) : List (List Char) := sortByLen (t.map (·.1))
 
 /-- The alternatives of the regular expression before the identifier fall-back, in order.
 `"|".join([])` is the empty string, so an empty table yields the single empty alternative. -/
@@ -387,7 +425,7 @@ inductive CopyMode | shared | fresh
 def copyCells (m : CopyMode) (st : Store) (locs : List Nat) : List Nat × Store :=
   match m with
   | .shared => (locs, st)
-  | .fresh => ((List.range locs.length).map (· + st.length), st ++ locs.map (fun l => st.getD l []))
+  | .fresh => (List.range' st.length locs.length, st ++ locs.map (fun l => st.getD l []))
 
 def writeCells (f : List Char → List Char) (st : Store) (locs : List Nat) : Store :=
   locs.foldl (fun s l => s.set l (f (s.getD l []))) st
